@@ -342,6 +342,7 @@ class Tie:
             self.lines.append(line)
             self.expect.append(("asm", "%s:%s" % (tag, node.declgen or node.decl), (exp_fargs, exp_acts, matched), C_node))
         # ---- routing
+        pos = {id(n): k for k, n in enumerate(index)}
         tab = []
         keyid = Interner({})
         where = {id(n): (mod, cls) for mod, cls, n in fns}
@@ -370,9 +371,30 @@ class Tie:
                 self.lines.append("route %d %s" % (i, tabs))
                 self.expect.append(("route", "%s:%s" % (tag, n.declgen or n.decl),
                                     (_scope_get(n.fmtdict, "F_C_call"), i), (pre, index)))
+        # ---- fortran_generic / assumed-rank clones: which C function each clone calls (generic_function's
+        # per-function cvariants table), from the declarations of the function and of its generic list
+        def feat(decls):
+            return ";".join("%d,%d" % (int(a.typemap.sgroup == "native"), int(a.attrs["rank"] or 0)) for a in decls) or "-"
+        for s_i, n in enumerate(index):
+            gl = n.fortran_generic
+            if not isinstance(gl, list) or not gl or n._PTR_C_CXX_index is not None:
+                continue   # bufferify / CFI clones copy the list but generic_function never runs on them
+            same = [m for m in index if m is not n and isinstance(m.fortran_generic, list) and m.fortran_generic
+                    and m._PTR_C_CXX_index is None and m.decl == n.decl and m.ast.name == n.ast.name]
+            if same:
+                self.skipped += 1   # default-argument clones of a generic function share the declaration text
+                continue
+            clones = [c for c in index if c._generated == "fortran_generic" and c.decl == n.decl
+                      and c.ast.name == n.ast.name and getattr(c, "parent", None) is getattr(n, "parent", None)]
+            if len(clones) != len(gl):
+                self.skipped += 1
+                continue
+            nxt = pos[id(clones[0])]
+            self.lines.append("gtargets %d %d %s %s" % (s_i, nxt, feat(n.ast.params), " ".join(feat(g.decls) for g in gl)))
+            self.expect.append(("gtargets", "%s:%s" % (tag, n.declgen or n.decl),
+                                [c._PTR_F_C_index for c in clones], None))
         # ---- generic interfaces: model over nodes in emission order
         emis = [n for _m, _c, n in fns]
-        pos = {id(n): k for k, n in enumerate(index)}
         if emis and all(id(n) in pos for n in emis):
             self.lines.append("generics " + " ".join(",".join(map(str, tab[pos[id(n)]])) for n in emis))
             real = []
@@ -424,6 +446,16 @@ class Tie:
                     bad.append({"kind": kind, "fn": tag, "model_C_index": c, "model_F_C_name": pre.get(c), "real_F_C_call": fccall})
                 if c != i:
                     ctx.nontrivial(("route", tag))
+                    first = index[i]._PTR_F_C_index
+                    if first is not None and first != c:
+                        self.n_multihop = getattr(self, "n_multihop", 0) + 1
+            elif kind == "gtargets":
+                self.n_gt = getattr(self, "n_gt", 0) + 1
+                model = [] if got == "-" else [int(x) for x in got.split(",")]
+                if model != exp:
+                    bad.append({"kind": kind, "fn": tag, "model_PTR_F_C_index": model, "real_PTR_F_C_index": exp})
+                if len(set(exp)) > 1:
+                    ctx.nontrivial(("gtargets", tag))
             elif kind == "generics":
                 n_gen += 1
                 keyid, emis = extra
@@ -444,5 +476,6 @@ class Tie:
                     bad.append({"kind": kind, "lib": tag, "model": model, "real": exp})
                 if model:
                     ctx.nontrivial(("generics", tag))
-        return bad, {"assembled_functions": n_asm, "routes": n_route, "generic_tables": n_gen, "skipped": self.skipped,
+        return bad, {"assembled_functions": n_asm, "routes": n_route, "generic_tables": n_gen, "generic_clone_routings": getattr(self, "n_gt", 0),
+                     "multi_hop_routes": getattr(self, "n_multihop", 0), "skipped": self.skipped,
                      "f_entries_reached": sorted(x for x in self.entries_f if x), "c_entries_reached": sorted(x for x in self.entries_c if x)}
